@@ -1,7 +1,9 @@
 // Plain bitvector operations.
 use crate::exec::{raw_from_words, ser_words, Obj, State};
 use crate::util::*;
-use simple_sds::bit_vector::BitVector;
+use simple_sds::bit_vector::{BitVector, Complement, Identity, Transformation};
+use simple_sds::bit_vector::rank_support::RankSupport;
+use simple_sds::bit_vector::select_support::SelectSupport;
 use simple_sds::ops::*;
 use simple_sds::rl_vector::RLVector;
 use simple_sds::sparse_vector::SparseVector;
@@ -136,6 +138,27 @@ pub fn exec_bv(st: &mut State, name: &str, t: &[&str]) -> String {
         "pred" => opt_pair(v.predecessor(parse_usize(t[1])).next()),
         "succ" => opt_pair(v.successor(parse_usize(t[1])).next()),
         "ser" | "doc" => words_to_string(&ser_words(v)),
+        // the public, safe support-level API (bit_vector::{Identity, Complement, rank_support, select_support}):
+        // tword I|C <index> ; tbit I|C <index> ; sup rank <index> ; sup sel I|C <rank>
+        "tword" => {
+            let i = parse_usize(t[2]);
+            match t[1] { "I" => Identity::word(v, i).to_string(), "C" => Complement::word(v, i).to_string(), _ => panic!("harness: bad transformation") }
+        },
+        "tbit" => {
+            let i = parse_usize(t[2]);
+            match t[1] { "I" => (Identity::bit(v, i) as u8).to_string(), "C" => (Complement::bit(v, i) as u8).to_string(), _ => panic!("harness: bad transformation") }
+        },
+        "sup" => {
+            match t[1] {
+                "rank" => RankSupport::new(v).rank(v, parse_usize(t[2])).to_string(),
+                "sel" => match t[2] {
+                    "I" => SelectSupport::<Identity>::new(v).select(v, parse_usize(t[3])).to_string(),
+                    "C" => SelectSupport::<Complement>::new(v).select(v, parse_usize(t[3])).to_string(),
+                    _ => panic!("harness: bad transformation"),
+                },
+                _ => panic!("harness: bad support op"),
+            }
+        },
         // it <kind> [arg] : calls…
         "it" => {
             let colon = t.iter().position(|x| *x == ":").expect("harness: it needs ':'");
